@@ -50,6 +50,11 @@ class Chooser:
         if not labels:
             kinds = [('add_input', 1), ('add_inputs', 1), ('connect', 0.5)]
         k = rng.choices([x[0] for x in kinds], [x[1] for x in kinds])[0]
+        # keep truth tables small for the judge: at most 6 inputs, 16 gates
+        if len(ins) >= 5 and k in ('add_input', 'add_inputs', 'connect') and labels:
+            k = 'add_gate'
+        if len(labels) >= 16 and k in ('add_gate', 'connect', 'add_input', 'add_inputs'):
+            k = rng.choice(['remove_gate', 'rename_gate', 'set_outputs', 'replace_subcircuit', 'replace_inputs'])
         pick = lambda seq: rng.choice(seq) if seq else 'nope'
         if k == 'add_input':
             return {'a': 'add_gate', 'l': pick(labels) if bad and labels else self.new_label(), 't': 'INPUT', 'ops': []}
@@ -107,7 +112,7 @@ class Chooser:
             return {'a': 'remove_block', 'n': pick(blocks)} if blocks else {'a': 'mark_as_output', 'l': pick(labels)}
         if k == 'connect':
             pfx = self.new_label()
-            other = random_small_circuit(rng, prefix=pfx)
+            other = random_small_circuit(rng, prefix=pfx, ni=rng.randint(1, max(1, min(3, 6 - len(ins)))))
             right = rng.random() < 0.5
             name = rng.choice(['', 'B' + pfx])
             addp = rng.random() < 0.7
@@ -200,7 +205,7 @@ class Chooser:
             sub['g'][ren[l]] = {'t': g.gate_type.name, 'o': [ren[o] for o in g.operands]}
         if bad and outs:
             om.pop(outs[0])
-        return {'a': 'replace_subcircuit', 'sub': sub, 'im': [[k, v] for k, v in im.items()], 'om': [[k, v] for k, v in om.items()]}
+        return {'a': 'replace_subcircuit', 'equiv': not (bad and outs), 'sub': sub, 'im': [[k, v] for k, v in im.items()], 'om': [[k, v] for k, v in om.items()]}
 
 
 def random_history(seed, n, prop='C02', weights=None, init=None):
